@@ -71,3 +71,50 @@ def run(prop: str, repo: Path, seed: int, jobs: int = 1) -> dict:
     for d in dead:
         log.append(f"  DEAD: {d}")
     return {"mutations": len(muts), "fired": fired, "stale": stale, "dead_rules": dead, "samples": samples, "_log": log}
+
+
+def run_seeded(prop: str, repo: Path, seed: int = 0) -> dict:
+    """Regression corpus (thorough tier): every seeded change kept for this property under /verif/seeded is applied
+    *in memory* (unified diff -> overlay) and must be reported by this property's rules."""
+    import json
+
+    from . import udiff
+
+    root = core.VERIF / "seeded"
+    log, missed, stale, fired_n = [], [], 0, 0
+    samples = []
+    dirs = sorted(d for d in root.glob(f"{prop}-*") if (d / "patch.diff").exists()) if root.exists() else []
+    known = {f"{k['property']}|{k['rule']}|{k['construct']}" for k in core.load_known() if k.get("status") == "open"}
+    for d in dirs:
+        diff = (d / "patch.diff").read_text()
+
+        def read(rel):
+            p = repo / rel
+            return p.read_text() if p.exists() else None
+
+        try:
+            overlay = udiff.apply(diff, read)
+        except udiff.PatchError:
+            stale += 1
+            log.append(f"  stale (patch no longer applies to this tree): {d.name}")
+            continue
+        ctx = None
+        try:
+            sm = SourceModel(repo, overlay=overlay)
+            ctx = core.Ctx(prop, repo, "quick", sm, seed=seed, quiet=True)
+            ctx.overlay = overlay
+            mod = importlib.import_module(f"rules.{prop.lower()}")
+            mod.run(ctx)
+        except Exception:
+            pass
+        fails = [o for o in (ctx.failures() if ctx else []) if core.finding_key(prop, o) not in known]
+        if fails:
+            fired_n += 1
+        else:
+            missed.append(d.name)
+        if len(samples) < 4:
+            samples.append({"seed": d.name, "reported": [f"{o.rule} {o.construct}" for o in fails[:2]]})
+    log.insert(0, f"seeded corpus {prop}: {len(dirs)} change(s), reported={fired_n}, stale={stale}, missed={len(missed)}")
+    for m in missed:
+        log.append(f"  MISSED: {m}")
+    return {"changes": len(dirs), "reported": fired_n, "stale": stale, "missed": missed, "samples": samples, "_log": log}
